@@ -161,6 +161,18 @@ Definition inst_get (U : universe) (d : cid) (fs : list val) (k : text) : val :=
 
 (* ------------------------------------------------------------------ 3. get_polymorphic_target *)
 
+(** ProtocolMixin.get_polymorphic_target as a decision over four facts (polymorphic; inst.__class__ is the
+    class the declared one originates from; isinstance of it; no polymap entry for the instance's class):
+    GDecl = (cls, False), GInst = (inst.__class__, True), GMap = (the polymap entry, True).
+    harness/translate/c16shape.py regenerates this function from the normalised source as [gpt_src];
+    Props/C16.v proves the two equal and that [poly_target] below is this decision with the default (empty) polymap. *)
+Inductive gpt_res := GDecl | GInst | GMap.
+Definition gpt_decide (poly same_cls is_inst map_none : bool) : gpt_res :=
+  if negb poly then GDecl
+  else if same_cls then GDecl
+  else if negb is_inst then GDecl
+  else if map_none then GInst else GMap.
+
 (** returns (class used for serialisation, add_type).  [c] is the declared class (`cls.__orig__ or
     cls`), [d] is inst.__class__; the polymap is empty (its default). *)
 Definition poly_target (S0 : xshape) (poly : bool) (U : universe) (c d : cid) : cid * bool :=
